@@ -7,6 +7,7 @@ Rust code returns instead of panicking is decided by the correspondence run (rel
 import Penguin.Model.Mux
 import Penguin.Lemmas.MuxBasic
 import Penguin.Lemmas.MuxStep
+import Penguin.Lemmas.MuxBound
 
 namespace Penguin.C10
 open Penguin Penguin.Mux
@@ -84,6 +85,29 @@ theorem invalid_frame_resolves_everything (e : EP) (err : DecErr) :
     r.1.dead = true ∧ r.1.flows = [] ∧ (∀ q ∈ r.1.opens, q.req ∈ r.1.retryq) ∧ r.1.park = none ∧
     r.2.getLast? = some (.exit (.invalidFrame err)) :=
   Mux.windDown_error_resolves e (.invalidFrame err) (by intro h; cases h)
+
+/-- Whatever a peer sends, for as long as it likes, and whatever the application does meanwhile: in
+    every state the endpoint reaches, each stream's receive queue holds at most that stream's own
+    window of frames (`Push` frames beyond it reset the flow, they are not stored), and the accept,
+    datagram and bind queues hold at most their configured capacities (`Datagram`s beyond are dropped,
+    the receive loop waits for the application on full accept / bind queues). A misbehaving peer
+    cannot make the endpoint buffer without bound. (`Lemmas/MuxBound.lean`: induction over every
+    history, every function of the endpoint model.) -/
+theorem peer_cannot_overfill_buffers (o : Opts) (ops : List Mux.Op) :
+    let e := runOps { opts := o } ops
+    (∀ (i : Nat) (ob : Obj), e.objs[i]? = some ob → ob.rxq.length ≤ ob.cap) ∧
+    e.acceptq.length ≤ o.acceptCap ∧ e.dgramq.length ≤ o.dgramCap ∧ e.bindq.length ≤ o.bindCap := by
+  have h := reachable_bnd o ops
+  have ho : (runOps { opts := o } ops).opts = o := h.opts
+  have h2 := h.acc; have h3 := h.dg; have h4 := h.bnd
+  rw [ho] at h2 h3 h4
+  exact ⟨h.rxq, h2, h3, h4⟩
+
+/-! Non-vacuity: three `Push` frames into a window of two: two are queued, the third resets the flow. -/
+example : ((runOps { opts := { rwnd := 2 } } [.deliver (.msg (.frame (.connect 5 9 80 []))),
+    .deliver (.msg (.frame (.push 5 [1]))), .deliver (.msg (.frame (.push 5 [2])))]).objs[0]?.map (·.rxq.length)) = some 2 := by decide
+example : lookup (runOps { opts := { rwnd := 2 } } [.deliver (.msg (.frame (.connect 5 9 80 []))),
+    .deliver (.msg (.frame (.push 5 [1]))), .deliver (.msg (.frame (.push 5 [2]))), .deliver (.msg (.frame (.push 5 [3])))]).flows 5 = none := by decide
 
 /-! Non-vacuity -/
 example : (processFrame { opts := {} } (.push 7 [1]) false).1.outq = [.frame (.reset 7)] := by decide
